@@ -87,6 +87,8 @@ class FunctionSpec:
         spec = self
 
         def apply(I, f, args, kwargs):
+            if spec.inline_when(I, f, args, kwargs):
+                return I.call_function(f, args, kwargs, force_inline=True)
             ctx = spec.bind_call(I, f, args, kwargs)
             pre = spec.call_requires(I, ctx)
             for name, goal in pre:
@@ -128,6 +130,24 @@ class FunctionSpec:
 
     def call_requires(self, I, ctx):
         return []
+
+    probe = None
+
+    def replay_hint(self, ob):
+        """native replay for a refuted obligation of this contract: the probe named by the spec gets the
+        variant and clause from the obligation name and the solver model's values"""
+        if not self.probe:
+            return None
+        import re
+
+        m = re.search(r"\{([^}]*)\}", ob.name)
+        variant = m.group(1).split(",") if m else None
+        m2 = re.search(r"/(post|frame|memo|intern|raises|unchanged_on_raise|pre|inv)\[([^\]]*)\]", ob.name)
+        return {"probe": self.probe, "hint": {"variant": variant, "clause": m2.group(2) if m2 else None, "kind": m2.group(1) if m2 else None, "model": ob.model}}
+
+    def inline_when(self, I, f, args, kwargs):
+        """call sites the contract does not cover and where the real body is executed instead"""
+        return False
 
 
 _exc_index = {}
